@@ -32,7 +32,9 @@ where
     let st := req.state.getD { d := 0, log := [] }
     let entry := s!"{req.cls}[{showNatList req.modes}]{showParams req.params}@{showShots req.shots}"
     match lookupParam req.params "outs" with
-    | none => .ok [{ state := some { st with log := st.log ++ [entry] }, outcome := [], freq := 1 }]
+    | none =>
+      -- `Branch.__init__` drops a state without modes (`state if state is not None and state.d != 0 else None`)
+      .ok [{ state := if st.d = 0 then none else some { st with log := st.log ++ [entry] }, outcome := [], freq := 1 }]
     | some (.tup outs) =>
       let d' := st.d - req.modes.length
       let st' : Option ScriptState := if d' = 0 then none else some { d := d', log := st.log ++ [entry] }
